@@ -165,6 +165,14 @@ def build(cfg, values=None):
                     A, B = got.todict(), want.todict()
                     for k in sorted(set(A) | set(B)):
                         obs.append(('calc_k0-after-redefinition-vs-fresh[%d,%d]' % (k[0], k[1]), A.get(k, 0), B.get(k, 0)))
+                    # the block that carries the prescribed amplitudes to the right-hand side
+                    A, B = np.asarray(cc.k0uk, dtype=object), np.asarray(fresh.k0uk, dtype=object)
+                    if A.shape != B.shape:
+                        obs.append(('k0uk-shape-after-redefinition', Sym.lift(A.size), Sym.lift(B.size)))
+                    else:
+                        for idx in np.ndindex(*A.shape):
+                            if not (isinstance(A[idx], (int, float)) and A[idx] == 0 and isinstance(B[idx], (int, float)) and B[idx] == 0):
+                                obs.append(('k0uk-after-redefinition-vs-fresh[%d,%d]' % idx, A[idx], B[idx]))
                 for which in ('k0', 'kG0'):
                     A, B = getattr(cc, which).todict(), getattr(fresh, which).todict()
                     for k in sorted(set(A) | set(B)):
@@ -504,9 +512,11 @@ def configs(tier, seed):
         for tag, red in (('cylinder-to-cone', ({'alphadeg': 0.}, {'alphadeg': 'alphadeg'})), ('cone-to-cylinder', ({'alphadeg': 'alphadeg'}, {'alphadeg': 0.})),
                          ('other-radius-and-length', ({'r2': 'r2_before', 'L': 'L_before'}, {'r2': 'r2', 'L': 'L'})),
                          ('other-loads', ({'Fc': 'Fc_before', 'P': 'P_before', 'T': 'T_before'}, {'Fc': 'Fc', 'P': 'P', 'T': 'T'})),
+                         ('prescribed-rotation-set-later', ({'thetaTdeg': 0., 'uTM': 0.}, {'thetaTdeg': 'thetaTdeg'})),
+                         ('axial-load-removed', ({'Fc': 'Fc_before'}, {'Fc': 0.})),
                          ('constitutive-matrix-given-after-a-laminate', ({}, {'F_reuse': 'MATRIX'}))):
             out.append({'variant': 'history', 'model': model, 'mn': (2, 2, 1), 's': 1, 'cone': True, 'redefine': red, 'group': '(vii) re-definition %s:%s' % (tag, model), 'm': 1, 'n': 1, 'timeout_ms': 180000})
-            if tag in ('other-radius-and-length', 'constitutive-matrix-given-after-a-laminate', 'cylinder-to-cone'):
+            if tag in ('other-radius-and-length', 'constitutive-matrix-given-after-a-laminate', 'cylinder-to-cone', 'prescribed-rotation-set-later'):
                 out.append({'variant': 'history', 'via': 'calc_k0', 'model': model, 'mn': (2, 2, 1), 's': 1, 'cone': True, 'redefine': red,
                             'group': '(vii) re-definition %s through calc_k0:%s' % (tag, model), 'm': 1, 'n': 1, 'timeout_ms': 180000})
     # (v) elastic edge restraints through get_linear_matrices / fk0edges against the edge-spring energy
